@@ -34,6 +34,15 @@ package logging
 //@   props C20
 //@   mode wrap
 //@   requires mc.mu != nil && mc.enc != nil && mc.r != nil && FamInv() && MuInv()
-//@   ensures c != nil && fresh(c) && c.r == mc.r                                #shares-the-ring
+//@   ensures c != nil && fresh(c) && c.r == mc.r && c.mu == mc.mu && c.enc != nil     #shares-the-ring-and-lock
 //@   ensures FamInv()                                                            #cursor-agreement-kept
 //@   ensures MuInv()                                                             #mutex-agreement-kept
+
+//@ func (*MemCore).With returns (c)
+//@   props C20
+//@   mode wrap
+//@   requires mc.mu != nil && mc.enc != nil && mc.r != nil && FamInv() && MuInv()
+//@   ensures c is *MemCore && c.(*MemCore) != nil && c.(*MemCore).r == mc.r && c.(*MemCore).mu == mc.mu      #derived-core-shares-ring-and-lock
+//@   ensures FamInv()                                                            #cursor-agreement-kept
+//@   ensures MuInv()                                                             #mutex-agreement-kept
+//@   loop 1 invariant FamInv() && MuInv() && clone != nil && clone.r == mc.r && clone.mu == mc.mu && clone.enc != nil
